@@ -28,7 +28,6 @@ from ..lspdrive import panic_key
 
 def run(ctx):
     build.ensure_harness(["vh-bytecode"])
-    bindir = build.ensure_toolchain("rel")
     ctx.rule = (
         "packages: case = one repository program (test/rt, bench; list rotated by the seed) accepted by the front end; "
         "bytecode: case = one generated function (1..3000 instructions, every opcode, operand values from "
@@ -47,10 +46,26 @@ def run(ctx):
                              "bytecode_functions", "damaged_inputs:truncation", "damaged_inputs:trailing",
                              "damaged_inputs:bitflip",
                              "compiler_binary_runs"]
+    import time
+    t0 = time.time()
+    # the in-process parts need only the harness; they run first so that a tree whose toolchain cannot be built or
+    # bootstrapped any more (e.g. a broken bytecode reader) still gets its verdict from them
     progs = part_prog(ctx)
-    pkgs = part_cli(ctx, bindir, progs)
+    t1 = time.time()
     part_bc(ctx)
+    t2 = time.time()
+    try:
+        bindir = build.ensure_toolchain("rel")
+    except build.BuildError as e:
+        ctx.inconc("the toolchain (incl. the three-stage bootstrap through package files) could not be built: %s" % str(e)[-600:])
+        return
+    t3 = time.time()
+    pkgs = part_cli(ctx, bindir, progs)
+    t4 = time.time()
     part_damage(ctx, bindir, pkgs)
+    ctx.extra["wall_s_by_part"] = {"packages_in_process": round(t1 - t0, 1), "bytecode": round(t2 - t1, 1),
+                                   "toolchain_build": round(t3 - t2, 1), "cli": round(t4 - t3, 1),
+                                   "damaged": round(time.time() - t4, 1)}
 
 
 def _report(ctx, r, what, witness_name="input.txt"):
